@@ -47,19 +47,19 @@ def configurations(tier):
 def plan(tier, seed):
     q = tier == "quick"
     shards = []
-    parts = 2 if q else 4
+    parts = 2 if q else 6
     for cfg, env in (("native", {}), ("python", ENV_PY)):
         for p in range(parts):
             shards.append({"kind": "digests", "config": cfg, "env": dict(env), "part": p, "parts": parts,
                            "fills": 8 if q else 16, "big": [10000] if q else [10000, 100000, 1000000],
-                           "n_random": 300 if q else 35000,
+                           "n_random": 300 if q else 80000,
                            "label": "digests-%s-%d" % (cfg, p)})
     shards.append({"kind": "digests", "config": "sim_no_native", "env": {}, "part": 0, "parts": 1, "fills": 2 if q else 6,
                    "big": [10000], "n_random": 300 if q else 35000, "label": "digests-sim_no_native"})
-    nm = 4 if q else 6
+    nm = 4 if q else 12
     for p in range(nm):
         shards.append({"kind": "murmur", "config": "native", "n": 9000 if q else 1500000, "part": p, "parts": nm, "label": "murmur%d" % p})
-    nb = 5 if q else 6
+    nb = 5 if q else 12
     for p in range(nb):
         shards.append({"kind": "bloom", "config": "native", "n": 450 if q else 60000, "part": p, "label": "bloom%d" % p})
     return shards
